@@ -373,7 +373,24 @@ def F_pair(ctx, server, bc):
     ret = flow.expand_phi(d, d.expr_local(0))
     m = match(d.expr_local(0), C("collect", C("map", C("iter", V("acs")), CLOS("mk"))))
     ok = m is not None
-    if ok:
+    pl = flow.push_loop(bc) if not ok else None
+    if pl is not None:
+        # the same pairing written as `for ac in &acs { out.push(AcAndGraph { ac: .., graph: from_adf_and_ac(&adf, Some(ac)) }) }` (also after an extracted helper was inlined)
+        src, ne, pushed = pl
+        item = ("field", ("downcast", ne, "Some"), "0")
+        fs = dict(pushed[3]) if pushed[0] == "adt" and pushed[1].endswith("AcAndGraph") else {}
+        m_ac = match(fs["ac"], C("collect", C("map", C("iter", V("it")), CLOS("ts")))) if "ac" in fs else None
+        m_g = match(fs["graph"], C("from_adf_and_ac", V("adf"), ADT("Some", _0=V("it2")))) if "graph" in fs else None
+        ok = m_ac is not None and m_g is not None and strip_copy(m_ac["it"]) == item and strip_copy(m_g["it2"]) == item
+        if ok:
+            tsr = flow.closure_ret(server, server.body(m_ac["ts"]))
+            ok = match(tsr, C("to_string", F(P(2), "0"))) is not None
+        if ok:
+            acs = flow.expand_phi(d, src)
+            lib_recv = [n_[3][0] for n_ in flow.find(acs, lambda n_: n_[0] == "call" and flow.last(n_[2]) in LIB_SEM and "adf_bdd::adf" in n_[1])]
+            same = bool(lib_recv) and all(strip_copy(r) == strip_copy(lib_recv[0]) for r in lib_recv)
+            ok = same and len(lib_recv) >= 5 and strip_copy(m_g["adf"]) == strip_copy(lib_recv[0])
+    elif ok:
         mk = server.body(m["mk"])
         mr = flow.subst_upvars(flow.Defs(mk).expr_local(0), flow.resolve_captures_local(server, mk) or [])
         fs = dict(mr[3]) if mr[0] == "adt" and mr[1].endswith("AcAndGraph") else {}
